@@ -162,7 +162,35 @@ func classifyC11(s spelling) string {
 	return ""
 }
 
+// c11Symlinks: normalisation is lexical - a location that exists on disk and is reached through a symbolic link is
+// the same location whether it is written as a path or as a file: URL.
+func c11Symlinks(c *Ctx) {
+	tmp, err := os.MkdirTemp("", "verif-c11-")
+	if err != nil {
+		return
+	}
+	defer os.RemoveAll(tmp)
+	if r, err := filepath.EvalSymlinks(tmp); err == nil {
+		tmp = r
+	}
+	if os.MkdirAll(filepath.Join(tmp, "real", "specs"), 0o755) != nil || os.Symlink(filepath.Join(tmp, "real"), filepath.Join(tmp, "link")) != nil {
+		return
+	}
+	_ = os.WriteFile(filepath.Join(tmp, "real", "specs", "root.json"), []byte(`{"swagger":"2.0"}`), 0o644)
+	p := filepath.ToSlash(filepath.Join(tmp, "link", "specs", "root.json"))
+	want := (&url.URL{Scheme: "file", Path: p}).String()
+	for _, sp := range []string{p, "file://" + p, "file:" + p, filepath.ToSlash(filepath.Join(tmp, "link", "specs", ".", "root.json"))} {
+		got := spec.VerifNormalizeBase(sp)
+		c.Count("symlink:"+sp, true)
+		c.Hit("location-behind-a-symbolic-link")
+		if got != want {
+			c.Fail(Failure{Kind: "oracle", Sig: "C11:spelling-changes-base", What: fmt.Sprintf("normalizeBase(%q) = %q for a document that exists behind a symbolic link; the other spellings of that location give %q", sp, got, want), Case: map[string]interface{}{"spelling": sp, "canonical": want}})
+		}
+	}
+}
+
 func runC11(c *Ctx) {
+	c11Symlinks(c)
 	cwd, _ := os.Getwd()
 	c.Res.Rule = "equivalent spellings of canonical root locations (file, http, https; relative ones against the working directory) generated by up to 3 (quick) / 4 (thorough) rewrites: insert ./, insert x/../, double an inner slash, path vs file:/ vs file:///, upper-case scheme, literal characters instead of escapes, append fragment, append query (files); normalizeBase compared across spellings (hook) and end to end through ExpandSpec (loader arguments and output); non-trivial = spelling with at least one rewrite; distinct by spelling"
 	canons := []string{"file:///v/r/root.json", "file://" + cwd + "/vtmp/sub/root.json", "http://h.example/api/v1/root.json", "https://h.example/root.json", "file:///root.json", "http://h.example:8080/a/b/c/root.json",
@@ -722,6 +750,28 @@ func runC12(c *Ctx) {
 				if len(l2) < 2 || l2[0] != first || l2[1] != second {
 					c.Fail(Failure{Kind: "oracle", Sig: "C12:second-hop-url-differs", What: fmt.Sprintf("$ref %q in %q, whose target holds $ref \"models/m.json#/definitions/y\": loader was asked for %v, RFC 3986 gives [%s %s]", first+"#/definitions/x", base, l2, first, second),
 						Case: map[string]interface{}{"ref": first + "#/definitions/x", "base": base}})
+				}
+			}
+			// the same host and path under http and under https are two documents: whichever is met first, both are
+			// fetched and each $ref gets its own
+			if ci == 0 {
+				for _, order := range [][2]string{{"http", "https"}, {"https", "http"}} {
+					a, b := order[0]+"://twin.example/x/doc.json", order[1]+"://twin.example/x/doc.json"
+					log5 := &loadLog{}
+					var sch5 spec.Schema
+					_ = json.Unmarshal([]byte(`{"type":"object","allOf":[{"$ref":`+quoteJSON(a+"#/definitions/x")+`},{"$ref":`+quoteJSON(b+"#/definitions/x")+`}]}`), &sch5)
+					err5 := spec.ExpandSchemaWithBasePath(&sch5, nil, &spec.ExpandOptions{RelativeBase: base,
+						PathLoader: func(u string) (json.RawMessage, error) {
+							log5.add(u)
+							return json.RawMessage(`{"definitions":{"x":{"type":"string","description":` + quoteJSON(u) + `}}}`), nil
+						}})
+					c.Hit("end-to-end-scheme-twins")
+					cs5 := map[string]interface{}{"refs": []string{a + "#/definitions/x", b + "#/definitions/x"}, "base": base}
+					if err5 != nil || len(sch5.AllOf) != 2 {
+						c.Fail(Failure{Kind: "oracle", Sig: "C08:spurious-error", What: fmt.Sprint("every $ref is resolvable but the expansion fails: ", err5), Case: cs5})
+					} else if sch5.AllOf[0].Description != a || sch5.AllOf[1].Description != b {
+						c.Fail(Failure{Kind: "oracle", Sig: "C12:scheme-twin-confused", What: fmt.Sprintf("$refs to %q and %q were replaced by the contents of %q and %q (loader was asked for %v)", a, b, sch5.AllOf[0].Description, sch5.AllOf[1].Description, log5.list()), Case: cs5})
+					}
 				}
 			}
 			// two documents whose locations differ by letter case only are two documents: one expansion that
